@@ -39,7 +39,7 @@ def cache_rules(ctx, rep, P):
             good = any(_same_place(root_place(b, ct["a"][0]), rp) and b.dominates(ci, i) and ci != i for ci, ct in clears)
             rep.check(P + ".cache", "%s: scratch buffer %s is cleared before it is refilled" % (key, _pname(b, rp)), good, loc_of(b, t), "",
                       "a reusable scratch buffer is appended to without being cleared first: data of the previous block leaks into this one")
-    rep.floor(P + ".cache", "scratch buffer fills", n, 10)
+    rep.floor(P + ".cache", "scratch buffer fills", n, 5)
 
     # ---- recorders in encode_subframe -----------------------------------------------------------------
     b = anchor(F, rep, P + ".cache", "encode::encode_subframe")
@@ -75,7 +75,7 @@ def cache_rules(ctx, rep, P):
         good = any(rec[0] in cf and b.dominates(ci, i) and ci != i for ci, ct, cf in clears)
         rep.check(P + ".cache", "%s writes into a freshly cleared %s" % (nm, rec[0]), good, loc_of(b, t), "",
                   "%s is recorded into %s without clearing it first: bits of the previous block would be replayed" % (nm, rec[0]))
-    rep.floor(P + ".cache", "recorder uses in encode_subframe", m, 7)
+    rep.floor(P + ".cache", "recorder uses in encode_subframe", m, 4)
 
 
 def _derived_from_arg(b, l, depth=6):
